@@ -3,6 +3,7 @@ import json
 
 from .. import core
 from .. import pairing as P
+from .. import tpir
 from ..core import run_section
 
 MODULE = 'KdVerif.Props.C04'
@@ -204,16 +205,19 @@ SECTIONS = {
 
 
 def translation_tie(rep):
-    """Is the IR translated from traces_parser.py the program the refinement theorems are about?  Returns whether the
-    generated program can be run (no `.unsupported` node)."""
-    ans = core.drive(['pyircheck'])[0]
+    """Is the IR translated from traces_parser.py the program the refinement theorems are about?  Returns which of the
+    generated terms can be run (no `.unsupported` node): (the five methods, feed_generator, __init__)."""
+    ans, parts = tpir.check_parts()
     if ans == 'same':
-        rep.notes.append('translation tie: Gen/PyIR (from traces_parser.py) = Spec/PyIRExpected')
-        return True
+        rep.notes.append('translation tie: Gen/PyIR (from traces_parser.py) = Spec/PyIRExpected + Spec/PyIRTpExpected '
+                         '(five methods, qualifiers_actions, feed_generator, __init__)')
+        return True, True, True
     rep.broken.append('theorem source_is_expected_ir: the IR that tools/gen_pyir.py translates from the source text of '
-                      'traces_parser.py is not the program of Spec/PyIRExpected that expected_ir_refines_model / '
-                      'run_ir_eq_run_model are proved for (%s)' % ans)
-    return 'unsupported' not in ans
+                      'traces_parser.py is not the program of Spec/PyIRExpected / Spec/PyIRTpExpected that '
+                      'expected_ir_refines_model / run_ir_eq_run_model / feed_generator_ir_eq_model / init_ir_eq_model are '
+                      'proved for (%s)' % ans)
+    probe = core.drive(['pyir -', 'pyirgen - - 0', 'pyirinit 3'])
+    return tuple(p != 'unsupported' for p in probe)
 
 
 RULE_NAMES = ('every name N of: the registered handler names, every string literal of the package source that is or looks like '
@@ -301,9 +305,10 @@ def correspondence(rep, rng, tier):
     if hits:
         rep.broken.append('assumption: code outside traces_parser.py references the window tables (%s); the model\'s decoders '
                           'cannot' % '; '.join(hits[:4]))
-    runnable = translation_tie(rep)
+    runnable, runnable_gen, runnable_init = translation_tie(rep)
     if not runnable:
         rep.notes.append('section pairing-ir skipped: the translation contains .unsupported nodes')
+    tpir.init_section(rep, runnable_init)
     kind = lambda c, got: c['style']  # noqa: E731
     nontriv = lambda c, got: got.startswith('ok') and P.has_multi_window(got)  # noqa: E731
     chunks = [(6000, 40)] if tier == 'quick' else [(10000, 40)] * 9 + [(3000, 120)]
@@ -335,6 +340,7 @@ def correspondence(rep, rng, tier):
                              'the interpreter of Model/PyIR (`pyir`: per event the list handed to parse_event_list and '
                              'whether a handler result came back) against the real TracesParser with recording stub '
                              'handlers — tests the translator and the interpreter, not the hand model')
+        tpir.feed_generator_section(rep, sub, runnable_gen)
         first = False
     names = pool['all']
     for i in range(0, len(names), 400):             # chunked like `pairing`
@@ -346,6 +352,8 @@ def correspondence(rep, rng, tier):
     P.shrink_failures(rep, 'pairing-long', impl_stub, P.oracle_per_event, lambda c: P.line('pairg', c)[:4000], expand=expand)
     P.shrink_failures(rep, 'pairing', impl_stub, P.oracle_per_event, lambda c: P.line('pairg', c))
     P.shrink_failures(rep, 'pairing-pregate', impl_pregate, oracle_pregate, lambda c: P.line('pair', c))
+    P.shrink_failures(rep, 'feed-generator-ir', tpir.impl_gen, tpir.oracle_gen, tpir.line_gen, seconds=10.0,
+                      expand=lambda c: dict(c, gen=tpir.variant(c)))
     value_equal_section(rep, rng, tier)
     codes = P.real_alphabet()
     m = 1500 if tier == 'quick' else 20000
@@ -369,6 +377,26 @@ def replay(path):
         print('nothing to replay (no failing input was recorded):', r.get('no_longer_checks'))
         return 1
     case, sec = rp['case'], rp.get('section', 'pairing')
+    if sec in ('feed-generator-ir', 'init-ir'):
+        if sec == 'init-ir':
+            got = tpir._safe(tpir.impl_init, case)
+            print('impl :', got)
+            try:
+                print('model:', core.drive(['pyirinit %d' % case.get('nargs', 3)])[0])
+            except core.Infra as e:
+                print('model: <driver unavailable: %s>' % e)
+            res = tpir.oracle_init(case, got)
+        else:
+            print('codes (id name decodable):', case['codes'])
+            for e in case['events'][:80]:
+                print('   %d tid=%d code=%#x q=%d' % (e[0], e[1], e[2], e[3]))
+            res = tpir.replay_gen(case)
+        if res:
+            print('oracle:', res[0], '-', res[1])
+            print(f'VIOLATION property=C04 replay={path}')
+            return 1
+        print('oracle: property holds on this input')
+        return 0
     if sec == 'pairing-value-equal':
         class _R:                                    # re-run the one case through the section itself
             def __init__(self):
